@@ -656,11 +656,18 @@ impl<K: Kmer, D: Debug> DebruijnGraph<K, D> {
         writeln!(writer, "],").unwrap();
 
         writeln!(writer, "\"links\": [").unwrap();
+        // the last node that has links to write: no separator may follow its group
+        let mut last_with_links: Option<usize> = None;
+        for j in 0..self.len() {
+            if !self.get_node(j).r_edges().is_empty() {
+                last_with_links = Some(j);
+            }
+        }
         for i in 0..self.len() {
             let node = self.get_node(i);
             match node.edges_to_json(writer) {
                 true => {
-                    if i == self.len() - 1 {
+                    if Some(i) == last_with_links {
                         writeln!(writer).unwrap();
                     } else {
                         writeln!(writer, ",").unwrap();
